@@ -1074,20 +1074,38 @@ class SymBytesBase:
         return r
 
     def strip(self, chars=None):
-        """leading/trailing whitespace removed (forks on the symbolic characters at the ends)"""
-        if chars is not None:
-            raise Inconclusive("strip(chars) on symbolic text")
+        """leading/trailing whitespace (or the characters of a concrete `chars`) removed: forks on the symbolic
+        characters at the ends"""
+        return self._strip(chars, True, True)
+
+    def lstrip(self, chars=None):
+        return self._strip(chars, True, False)
+
+    def rstrip(self, chars=None):
+        return self._strip(chars, False, True)
+
+    def _strip(self, chars, left, right):
+        if chars is None:
+            cs = (32, 9, 10, 11, 12, 13)
+        elif isinstance(chars, (bytes, bytearray)):
+            cs = tuple(sorted(set(chars)))
+        elif isinstance(chars, str):
+            cs = tuple(sorted(set(chars.encode("latin1"))))
+        elif isinstance(chars, SymBytesBase):
+            cs = tuple(sorted(set(chars.concrete())))
+        else:
+            raise Inconclusive("strip() with an argument of an unsupported type")
         n = len(self)
         items = self._all()
 
-        def ws(b):
+        def member(b):
             if isinstance(b, int):
-                return b in (32, 9, 10, 11, 12, 13)
-            return bool(Or(b == 32, And(b >= 9, b <= 13)))
+                return b in cs
+            return bool(Or(*[b == c for c in cs])) if cs else False
         lo, hi = 0, n
-        while lo < hi and ws(items[lo]):
+        while left and lo < hi and member(items[lo]):
             lo += 1
-        while hi > lo and ws(items[hi - 1]):
+        while right and hi > lo and member(items[hi - 1]):
             hi -= 1
         return self._mk(Vec(items[lo:hi]).fold())
 
